@@ -51,7 +51,7 @@ func argClass(lo, min, max int64) string {
 
 func c20Step(in *c20inst, s Step, idx int, pg *progress) *Viol {
 	fail := func(clause, detail string) *Viol {
-		return &Viol{Key: "C20:" + s.Op + "/" + clause, Step: idx, Detail: detail}
+		return &Viol{Key: "C20:" + s.Op + "/" + clause, Step: idx, Inst: s.Inst, Detail: detail}
 	}
 	mark := func() {
 		if pg != nil {
